@@ -38,6 +38,19 @@ def entryReset (fs : List Field) (s : St) : St :=
     nl := if fs.contains .noff then -1 else s.nl
     inFast := s.inFast }
 
+/-- the value `entryReset` gives a field, as the token the extractor writes for the right-hand side of
+the Go assignment (`mode := .value` is `= valueMap`, `[]` is a zero-length reslice `x[:0]` or
+`make(T, 0, n)`, `line := 1` is `= 1`, `nl := -1` is `noff = -1`, `docs := []` is `result = nil`
+and a nil callback / channel before the arguments are looked at). Read side by side with
+`entryReset`: this table is what ties its hard-coded values to the source. -/
+def resetToken : Field → Option String
+  | .mode => some "ident:valueMap"
+  | .starts | .stack | .tmp => some "empty"
+  | .docs => some "nil"
+  | .line => some "lit:1"
+  | .noff => some "lit:-1"
+  | _ => none
+
 /-- locals of the buffer function (`off`, the digit loop) start afresh in every call -/
 def enter (s : St) : St := { s with pos := 0, inFast := false }
 
